@@ -1835,13 +1835,16 @@ impl OperatorValidator {
                     for sym in sema.first_sets[&operand.syntax()].iter() {
                         if sema.right_associative.contains(sym.0.as_ref()) {
                             right_assoc = true;
-                            recursive
-                                .binding_power
-                                .entry(regex.syntax())
-                                .and_modify(|e| *e = (e.1, e.0));
                         } else {
                             left_assoc = true;
                         }
+                    }
+                    if right_assoc {
+                        // swap once per branch, however many operator tokens it has
+                        recursive
+                            .binding_power
+                            .entry(regex.syntax())
+                            .and_modify(|e| *e = (e.1, e.0));
                     }
                     if right_assoc && left_assoc {
                         diags.push(Diagnostic::mixed_assoc(&operand.span(cst)));
